@@ -84,10 +84,20 @@ type fakeAddr string
 func (a fakeAddr) Network() string { return "fake" }
 func (a fakeAddr) String() string  { return string(a) }
 
+// vclock is the virtual clock of one case: virtual now = real now + offset. The session
+// code computes its deadlines from time.Now(); with read/write timeouts of 1000 h no real
+// delay can make them expire, only an explicit advance step.
+type vclock struct{ offset atomic.Int64 }
+
+func (v *vclock) now() time.Time { return time.Now().Add(time.Duration(v.offset.Load())) }
+
 type fakeConn struct {
 	mu   sync.Mutex
 	cond *sync.Cond
 	addr fakeAddr
+	clk  *vclock
+	rdl  time.Time
+	wdl  time.Time
 
 	inbuf       []byte
 	peerClosed  bool
@@ -101,8 +111,8 @@ type fakeConn struct {
 	writesTried int
 }
 
-func newFakeConn(id int, peerReads bool) *fakeConn {
-	c := &fakeConn{addr: fakeAddr(fmt.Sprintf("fake-peer-%d", id)), peerReads: peerReads}
+func newFakeConn(id int, peerReads bool, clk *vclock) *fakeConn {
+	c := &fakeConn{addr: fakeAddr(fmt.Sprintf("fake-peer-%d", id)), peerReads: peerReads, clk: clk}
 	c.cond = sync.NewCond(&c.mu)
 	return c
 }
@@ -125,6 +135,9 @@ func (c *fakeConn) Read(p []byte) (int, error) {
 		if c.readTimeout {
 			return 0, timeoutErr{}
 		}
+		if !c.rdl.IsZero() && !c.clk.now().Before(c.rdl) {
+			return 0, timeoutErr{}
+		}
 		c.cond.Wait()
 	}
 }
@@ -143,6 +156,9 @@ func (c *fakeConn) Write(p []byte) (int, error) {
 		if c.peerReads {
 			c.received = append(c.received, p...)
 			return len(p), nil
+		}
+		if !c.wdl.IsZero() && !c.clk.now().Before(c.wdl) {
+			return 0, timeoutErr{}
 		}
 		c.blocked++
 		c.cond.Wait()
@@ -164,9 +180,34 @@ func (c *fakeConn) Close() error {
 
 func (c *fakeConn) LocalAddr() net.Addr                { return fakeAddr("fake-local") }
 func (c *fakeConn) RemoteAddr() net.Addr               { return c.addr }
-func (c *fakeConn) SetDeadline(t time.Time) error      { return nil }
-func (c *fakeConn) SetReadDeadline(t time.Time) error  { return nil }
-func (c *fakeConn) SetWriteDeadline(t time.Time) error { return nil }
+func (c *fakeConn) SetDeadline(t time.Time) error {
+	c.mu.Lock()
+	c.rdl, c.wdl = t, t
+	c.cond.Broadcast()
+	c.mu.Unlock()
+	return nil
+}
+func (c *fakeConn) SetReadDeadline(t time.Time) error {
+	c.mu.Lock()
+	c.rdl = t
+	c.cond.Broadcast()
+	c.mu.Unlock()
+	return nil
+}
+func (c *fakeConn) SetWriteDeadline(t time.Time) error {
+	c.mu.Lock()
+	c.wdl = t
+	c.cond.Broadcast()
+	c.mu.Unlock()
+	return nil
+}
+func (c *fakeConn) wake() { c.mu.Lock(); c.cond.Broadcast(); c.mu.Unlock() }
+func (c *fakeConn) startReading() {
+	c.mu.Lock()
+	c.peerReads = true
+	c.cond.Broadcast()
+	c.mu.Unlock()
+}
 
 func (c *fakeConn) deliver(b ...byte) {
 	c.mu.Lock()
@@ -271,10 +312,12 @@ const (
 	evHandlerErr
 	evHandlerPanic
 	evDeliverOK
+	evAdvanceSmall   // virtual time + 1 h: far below the 1000 h read/write timeouts
+	evPeerStartsRead // a peer that did not read starts reading
 	nEvents
 )
 
-var evNames = []string{"send", "close", "peer-close", "read-timeout", "write-timeout", "write-error", "handler-error", "handler-panic", "deliver-ok"}
+var evNames = []string{"send", "close", "peer-close", "read-timeout", "write-timeout", "write-error", "handler-error", "handler-panic", "deliver-ok", "advance-1h", "peer-starts-reading"}
 
 func alwaysTerminates(ev int) bool {
 	return ev == evPeerClose || ev == evReadTimeout || ev == evHandlerErr || ev == evHandlerPanic
@@ -283,8 +326,9 @@ func alwaysTerminates(ev int) bool {
 func faultCase(k *engine.Case) {
 	r := k.R
 	h := newHandler()
-	mgr := stcp.NewSessionMgr(h)
+	mgr := stcp.NewSessionMgr(h, stcp.WithReadTimeout(1000*time.Hour), stcp.WithWriteTimeout(1000*time.Hour))
 	mgr.SetLogger(quietLogger)
+	clk := &vclock{}
 	h.mu.Lock()
 	h.mgr = mgr
 	h.mu.Unlock()
@@ -299,7 +343,7 @@ func faultCase(k *engine.Case) {
 	k.Logf("sessions=%d", ns)
 	for i := 0; i < ns; i++ {
 		x := &sess{id: i, peerReads: r.Intn(4) != 0}
-		x.conn = newFakeConn(i, x.peerReads)
+		x.conn = newFakeConn(i, x.peerReads, clk)
 		if r.Intn(2) == 0 {
 			mgr.Do(x.conn)
 		} else {
@@ -444,6 +488,15 @@ func faultCase(k *engine.Case) {
 			a.do = func() { x.conn.deliver(3) }
 		case evDeliverOK:
 			a.do = func() { x.conn.deliver(1, 1) }
+		case evAdvanceSmall:
+			a.do = func() {
+				clk.offset.Add(int64(time.Hour))
+				for _, y := range ss {
+					y.conn.wake()
+				}
+			}
+		case evPeerStartsRead:
+			a.do = func() { x.conn.startReading() }
 		}
 		return a
 	}
@@ -451,7 +504,7 @@ func faultCase(k *engine.Case) {
 	model := func(a act, accBefore int) {
 		x := a.x
 		if x.ended {
-			if a.ev != evSend && a.ev != evDeliverOK {
+			if a.ev != evSend && a.ev != evDeliverOK && a.ev != evAdvanceSmall && a.ev != evPeerStartsRead {
 				k.Count("second_event_on_ended_session", 1)
 			}
 			return
@@ -484,6 +537,16 @@ func faultCase(k *engine.Case) {
 			}
 		case evPeerClose, evReadTimeout, evHandlerErr, evHandlerPanic:
 			x.ended = true
+		case evPeerStartsRead:
+			if !x.peerReads {
+				x.peerReads = true
+				if !x.writeBroken {
+					x.pending = 0 // the blocked write and the queued frames flow to the peer
+					if x.closedLocal {
+						x.ended = true // the pending local Close completes after the flush
+					}
+				}
+			}
 		}
 	}
 	countEv := func(ev int) {
@@ -500,6 +563,10 @@ func faultCase(k *engine.Case) {
 			k.Count("event_handler_error", 1)
 		case evHandlerPanic:
 			k.Count("event_handler_panic", 1)
+		case evAdvanceSmall:
+			k.Count("event_virtual_time_advance", 1)
+		case evPeerStartsRead:
+			k.Count("event_peer_starts_reading", 1)
 		}
 	}
 	pickEvent := func() int {
@@ -519,10 +586,14 @@ func faultCase(k *engine.Case) {
 			return evFailWrite
 		case c < 80:
 			return evHandlerErr
-		case c < 88:
+		case c < 86:
 			return evHandlerPanic
-		default:
+		case c < 90:
 			return evDeliverOK
+		case c < 95:
+			return evAdvanceSmall
+		default:
+			return evPeerStartsRead
 		}
 	}
 
@@ -534,7 +605,7 @@ func faultCase(k *engine.Case) {
 			a := plan(x, pickEvent())
 			k.Logf("step %d: s%d %s%s", s, x.id, evNames[a.ev], map[bool]string{true: fmt.Sprintf(" x%d", a.n), false: ""}[a.ev == evSend])
 			countEv(a.ev)
-			if a.ev != evSend && a.ev != evDeliverOK {
+			if a.ev != evSend && a.ev != evDeliverOK && a.ev != evAdvanceSmall && a.ev != evPeerStartsRead {
 				x.events++
 				if x.events >= 2 || x.pending > 0 || len(x.accepted) > 0 {
 					k.Nontrivial()
@@ -562,6 +633,9 @@ func faultCase(k *engine.Case) {
 					x = ss[r.Intn(len(ss))]
 				}
 				ev := pickEvent()
+				if ev == evPeerStartsRead {
+					ev = evAdvanceSmall
+				}
 				if ev == evSend {
 					// one sending goroutine per session: the order of frames from concurrent
 					// senders is not defined, so it could not be judged
@@ -607,7 +681,7 @@ func faultCase(k *engine.Case) {
 					if alwaysTerminates(a.ev) {
 						must = true
 					}
-					if a.ev != evDeliverOK && !(a.ev == evSend && !x.writeBroken && !x.closedLocal && x.peerReads) {
+					if a.ev != evDeliverOK && a.ev != evAdvanceSmall && !(a.ev == evSend && !x.writeBroken && !x.closedLocal && x.peerReads) {
 						onlyBenign = false
 					}
 				}
@@ -747,11 +821,13 @@ func faultCase(k *engine.Case) {
 // ---------------------------------------------------------------- loop-back server
 
 type srvHandler struct {
-	srv   *stcp.Server
-	mgr   *stcp.SessionMgr
-	max   atomic.Int32
-	exits atomic.Int32
-	greet sync.Map
+	srv     *stcp.Server
+	mgr     *stcp.SessionMgr
+	max     atomic.Int32
+	exits   atomic.Int32
+	greet   sync.Map
+	live    atomic.Int32 // sessions between their first Read and OnExit (a subset of the live ones)
+	maxLive atomic.Int32
 }
 
 func (h *srvHandler) Read(s *stcp.Session) error {
@@ -763,6 +839,13 @@ func (h *srvHandler) Read(s *stcp.Session) error {
 		}
 	}
 	if _, loaded := h.greet.LoadOrStore(s, true); !loaded {
+		l := h.live.Add(1)
+		for {
+			o := h.maxLive.Load()
+			if l <= o || h.maxLive.CompareAndSwap(o, l) {
+				break
+			}
+		}
 		if err := s.Send([]byte{'A'}); err != nil {
 			return err
 		}
@@ -770,7 +853,12 @@ func (h *srvHandler) Read(s *stcp.Session) error {
 	var b [1]byte
 	return s.Read(b[:])
 }
-func (h *srvHandler) OnExit(s *stcp.Session) { h.exits.Add(1) }
+func (h *srvHandler) OnExit(s *stcp.Session) {
+	h.exits.Add(1)
+	if _, ok := h.greet.Load(s); ok {
+		h.live.Add(-1)
+	}
+}
 
 func serverCase(k *engine.Case) {
 	r := k.R
@@ -798,6 +886,28 @@ func serverCase(k *engine.Case) {
 	}
 	var cls []*cl
 	deadline := time.Now().Add(60 * time.Second)
+	fromEmpty := r.Intn(2) == 0 // burst against an idle server instead of a full one
+	if fromEmpty {
+		// wait until the listener is up
+		for {
+			c, derr := net.DialTimeout("tcp", addr, 2*time.Second)
+			if derr == nil {
+				c.Close()
+				break
+			}
+			if time.Now().After(deadline) {
+				k.Inconclusive("cannot connect to the loop-back server")
+				return
+			}
+			time.Sleep(5 * time.Millisecond)
+		}
+		end0 := time.Now().Add(20 * time.Second)
+		for h.mgr.ConnCount() != 0 && time.Now().Before(end0) {
+			time.Sleep(2 * time.Millisecond)
+		}
+		clients = 0
+		k.Logf("mode: burst against the idle server")
+	}
 	for i := 0; i < clients; i++ {
 		var c net.Conn
 		for {
@@ -856,8 +966,61 @@ func serverCase(k *engine.Case) {
 	if acc > m {
 		k.Fail("max-conn-exceeded", "%d connections were served simultaneously with WithMaxConn(%d)", acc, m)
 	}
-	if acc == m && cut != clients-m {
+	if !fromEmpty && acc == m && cut != clients-m {
 		k.Fail("surplus-not-closed", "%d of %d surplus connections were not closed on accept", clients-m-cut, clients-m)
+	}
+	// burst phase: while the server is at its limit, many clients dial at the same moment; the
+	// accept loop must keep closing the surplus (the count is taken synchronously on accept)
+	if acc == m || fromEmpty {
+		burst := 4*m + 8
+		if fromEmpty {
+			burst = 8*m + 24
+		}
+		room := int32(m - acc) // sessions the server may still serve
+		var bwg sync.WaitGroup
+		start := make(chan struct{})
+		var bAcc, bCut, bErr atomic.Int32
+		conns := make([]net.Conn, burst)
+		for i := 0; i < burst; i++ {
+			i := i
+			bwg.Add(1)
+			go func() {
+				defer bwg.Done()
+				<-start
+				c, err := net.DialTimeout("tcp", addr, 5*time.Second)
+				if err != nil {
+					bErr.Add(1)
+					return
+				}
+				conns[i] = c
+				c.SetReadDeadline(time.Now().Add(20 * time.Second))
+				var b [1]byte
+				n, rerr := c.Read(b[:])
+				switch {
+				case n == 1 && b[0] == 'A':
+					bAcc.Add(1)
+				case rerr != nil:
+					if ne, ok := rerr.(net.Error); ok && ne.Timeout() {
+						bErr.Add(1)
+					} else {
+						bCut.Add(1)
+					}
+				}
+			}()
+		}
+		close(start)
+		bwg.Wait()
+		k.Logf("burst of %d dials at the limit: served=%d cut=%d errors=%d; max live sessions seen=%d, max ConnCount seen=%d", burst, bAcc.Load(), bCut.Load(), bErr.Load(), h.maxLive.Load(), h.max.Load())
+		k.Count("server_burst_dials", int64(burst))
+		k.Count("server_surplus_connections_cut", int64(bCut.Load()))
+		if bAcc.Load() > room || int(h.maxLive.Load()) > m || int(h.max.Load()) > m {
+			k.Fail("max-conn-exceeded", "with WithMaxConn(%d) and %d sessions alive, a burst of %d simultaneous connections got %d more sessions served (max live sessions %d, max ConnCount %d)", m, acc, burst, bAcc.Load(), h.maxLive.Load(), h.max.Load())
+		}
+		for _, c := range conns {
+			if c != nil {
+				c.Close()
+			}
+		}
 	}
 	// clients leave; the count must return to zero
 	for _, x := range cls {
@@ -871,8 +1034,15 @@ func serverCase(k *engine.Case) {
 		}
 		time.Sleep(2 * time.Millisecond)
 	}
-	if h.mgr.ConnCount() == 0 && int(h.exits.Load()) != acc {
-		k.Fail("exit-callback-count", "%d sessions were served but OnExit ran %d times", acc, h.exits.Load())
+	if h.mgr.ConnCount() == 0 {
+		// every session that greeted has exited exactly once (live back to zero)
+		end2 := time.Now().Add(10 * time.Second)
+		for h.live.Load() != 0 && time.Now().Before(end2) {
+			time.Sleep(2 * time.Millisecond)
+		}
+		if h.live.Load() != 0 {
+			k.Fail("exit-callback-count", "the connection count is back to zero but %d served sessions never ran OnExit", h.live.Load())
+		}
 	}
 	srv.Close()
 	// let the accept loop and session goroutines drain before the next case
